@@ -56,11 +56,24 @@ impl LuaGreenNodeBuilder<'_> {
 
     #[inline]
     pub fn finish_node(&mut self) {
+        // The outermost node (the root) stays open until `finish`: a surplus `finish_node`
+        // must not close it, otherwise everything that follows would end up beside the root.
+        if self.parents.len() <= 1 {
+            return;
+        }
+
+        self.close_node();
+    }
+
+    fn close_node(&mut self) {
         if self.parents.is_empty() || self.children.is_empty() {
             return;
         }
 
-        let (parent_kind, mut first_start) = self.parents.pop().unwrap();
+        let (parent_kind, first_start) = self.parents.pop().unwrap();
+        // An inner Block may have taken trivia that preceded this node, so the recorded start
+        // can lie beyond the current end.
+        let mut first_start = first_start.min(self.children.len());
         let mut child_start = first_start;
         let mut child_end = self.children.len() - 1;
         let child_count = self.children.len();
@@ -223,29 +236,31 @@ impl LuaGreenNodeBuilder<'_> {
 
     #[inline]
     pub fn finish(mut self, text: &str) -> GreenNode {
-        if let Some(root_pos) = self.children.first() {
-            let is_chunk_root = matches!(
-                self.elements[*root_pos],
+        // Close every node that is still open (missing `finish_node` calls), the root last.
+        while !self.parents.is_empty() && !self.children.is_empty() {
+            self.close_node();
+        }
+
+        // Normally exactly one top-level element is left, the Chunk. Anything else is kept
+        // below a new Chunk, so that no token is ever dropped.
+        let is_chunk_root = self.children.len() == 1
+            && matches!(
+                self.elements[self.children[0]],
                 LuaGreenElement::Node {
                     kind: LuaSyntaxKind::Chunk,
                     ..
                 }
             );
-            if !is_chunk_root {
-                self.builder.start_node(LuaSyntaxKind::Chunk.into());
+        if is_chunk_root {
+            self.build_rowan_green(self.children[0], text);
+        } else {
+            self.builder.start_node(LuaSyntaxKind::Chunk.into());
+            for root_pos in std::mem::take(&mut self.children) {
+                self.build_rowan_green(root_pos, text);
             }
-
-            self.build_rowan_green(*root_pos, text);
-
-            if !is_chunk_root {
-                self.builder.finish_node();
-            }
-
-            return self.builder.finish();
+            self.builder.finish_node();
         }
 
-        self.builder.start_node(LuaSyntaxKind::Chunk.into());
-        self.builder.finish_node();
         self.builder.finish()
     }
 }
